@@ -123,10 +123,14 @@ func (i ingestedYAML) Apply(m MutableWorld) (b6.Collection[b6.FeatureID, b6.Feat
 			return applied.Collection(), err
 		}
 		for _, tag := range y.Add {
-			m.AddTag(y.ID, tag)
+			if err := m.AddTag(y.ID, tag); err != nil {
+				return applied.Collection(), err
+			}
 		}
 		for _, key := range y.Remove {
-			m.RemoveTag(y.ID, key)
+			if err := m.RemoveTag(y.ID, key); err != nil {
+				return applied.Collection(), err
+			}
 		}
 		applied.Keys = append(applied.Keys, y.ID)
 		applied.Values = append(applied.Values, y.ID)
